@@ -38,7 +38,8 @@ THEOREMS = [
     "cookie_history", "cookie_header_matches_history", "jar_unique", "reply_cookies_stored_partial",
     "reply_cookies_stored_refuted", "error_replies_leave_jar",
     "writeback_keeps_wire", "writeback_keeps_body", "writeback_has_no_cookie", "resend_carries_the_same",
-    "challenge_credentials_partial", "challenge_credentials_refuted", "same_url_history",
+    "challenge_credentials", "no_credentials_no_answer", "history_independent",
+    "accumulating_manager_partial", "accumulating_manager_refuted", "same_url_history",
 ]
 
 PRE = "From SV Require Import Lib.Base C15.Base64 C15.Model."
@@ -720,7 +721,10 @@ def add_credential_changes(rng, kind, user, steps, always=False):
     ONE url: urllib's password manager answers for a deeper path with the entry of a shorter one
     (sessions of that shape are generated apart, under their own finding class)."""
     for i, st in enumerate(steps[1:], 1):
-        if always or rng.random() < 0.6:
+        if st["via"] is None and st["challenge"] is None and rng.random() < 0.15:
+            # one or both reset to None: nothing may be offered any more
+            st["creds"] = rng.choice([(None, None), (None, gen_text(rng)), (user, None)]) + ("transport",)
+        elif always or rng.random() < 0.6:
             u = user if rng.random() < 0.5 else gen_text(rng, colon=False)
             user = u
             st["creds"] = (u, gen_text(rng), rng.choice(["transport", "client"]))
@@ -731,7 +735,7 @@ def add_credential_changes(rng, kind, user, steps, always=False):
 # dedicated sessions for corner behaviours (judged like every other session: model AND specification)
 QUIRKS = ["ce-name-or-value-case", "reply-ce-value-case", "reply-mislabelled", "error-reply-sets-cookie",
           "error-reply-compressed", "colon-in-username", "plain-transport-with-credentials",
-          "caller-authorization-and-credentials", "credential-change-same-url", "credential-change-deeper-path"]
+          "caller-authorization-and-credentials", "credential-change-same-url", "credential-change-deeper-path", "credentials-reset"]
 
 
 def gen_quirk(rng, cat, clients_n):
@@ -799,6 +803,25 @@ def gen_quirk(rng, cat, clients_n):
             if i > 0:
                 st["creds"] = (gen_text(rng, colon=False) if rng.random() < 0.5 else s["user"],
                                gen_text(rng) + "x", "transport")
+            s["steps"].append(st)
+    elif cat == "credentials-reset":
+        # credentials configured and used, then reset to None: the next challenge must not be answered with
+        # them (nor may the preemptive transport go on sending them); then perhaps configured again
+        kind = rng.choice(["TChallenge", "TChallenge", "TBasicPre"])
+        user, pw = gen_text(rng, colon=False), gen_text(rng)
+        s = {"kind": kind, "user": user, "pw": pw, "steps": []}
+        path = rng.choice(PATHS)
+        plan = [None, rng.choice([(None, None), (None, pw), (user, None)])]
+        if rng.random() < 0.6:
+            plan.append((gen_text(rng, colon=False), gen_text(rng)))
+        if rng.random() < 0.3:
+            plan.append((None, None))
+        for i, cr in enumerate(plan):
+            st = gen_step(rng, None, False, rng.random() < 0.8, False, status=200)
+            st["path"] = path if rng.random() < 0.7 else rng.choice(PATHS)
+            st["hdrs"] = [(k, v) for k, v in st["hdrs"] if k.lower() != "authorization"]
+            if cr is not None:
+                st["creds"] = cr + ("transport",)
             s["steps"].append(st)
     elif cat == "caller-authorization-and-credentials":
         s["kind"] = rng.choice(["TBasicPre", "TChallenge"])
@@ -1010,10 +1033,10 @@ def finding_keys(sess, obs, failed):
         _, key, what = PART_KEYS[part]
         if part == 3:
             auth = [v for ob in obs for k, v in ob["headers"] if k.lower() == b"authorization"]
-            if sess.get("cat") == "credential-change-deeper-path":
+            if sess.get("cat") in ("credential-change-deeper-path", "credentials-reset"):
                 key, what = "C15:stale-credentials-for-deeper-path", (
-                    "credentials were used for a path and then changed: a Basic challenge for a deeper path of the "
-                    "same transport is still answered with the old username/password")
+                    "credentials were used and then changed or reset to None: a later request (Basic challenge for a "
+                    "deeper path, or any request after the reset) still carries the old username/password")
             elif sess["user"] is not None and ":" in sess["user"]:
                 key, what = "C15:colon-in-username", ("username %r contains ':': the server splits the Basic credentials at "
                                                       "the first colon and recovers another pair" % sess["user"])
@@ -1215,7 +1238,7 @@ def run(ck):
     xdis = [i for i in resx["x_agrees"] if i not in spec_bad]
     # sessions showing a known finding must still be the model's behaviour
     xdis += [i for i in resx["x_agrees"] if i in spec_bad and sessions[i]["cat"] in
-             ("error-reply-sets-cookie", "colon-in-username", "credential-change-deeper-path")]
+             ("error-reply-sets-cookie", "colon-in-username")]
     if xdis:
         disagree["sessions"] = [dict(session_payload(sessions[i]), category=sessions[i]["cat"],
                                      observed=[describe_obs(o) for o in xobs[i]])
